@@ -506,6 +506,15 @@ func (ca *clusterAdmin) AlterPartitionReassignments(topic string, assignment [][
 				errs = append(errs, errors.New(rsp.ErrorCode.Error()))
 			}
 
+			if rsp.ErrorCode == ErrNoError {
+				for partition := range assignment {
+					if _, ok := rsp.Errors[topic][int32(partition)]; !ok {
+						errs = append(errs, ErrIncompleteResponse)
+						break
+					}
+				}
+			}
+
 			for topic, topicErrors := range rsp.Errors {
 				for partition, partitionError := range topicErrors {
 					if partitionError.errorCode != ErrNoError {
